@@ -241,6 +241,57 @@ def run_numbers(ctx):
     ctx.sample({"number_literal": items[len(items) // 2][0]})
 
 
+def is_number_literal_ref(text):
+    """CPython: the whole text is one numeric literal"""
+    try:
+        with __import__("warnings").catch_warnings():
+            __import__("warnings").simplefilter("ignore")
+            n = pyast.parse(text, mode="eval").body
+    except (SyntaxError, ValueError, MemoryError):
+        return False
+    return (isinstance(n, pyast.Constant) and isinstance(n.value, (int, float, complex)) and not isinstance(n.value, bool)
+            and n.col_offset == 0 and n.end_col_offset == len(text))
+
+
+def run_number_strings(ctx):
+    """every string over the numeric alphabet (not only the automaton's viable prefixes): it is a numeric literal for the
+    parser exactly when the automaton accepts it"""
+    r = ctx.tlc("literal", "NumLit", "NumLit_all_%s.cfg" % ("quick" if ctx.quick else "thorough"), coverage=False, timeout=3000)
+    from vcheck import ToolError
+    if len(r.replays) < 10000:
+        raise ToolError("vacuity: NumLit (all strings) emitted %d strings" % len(r.replays))
+    h = ctx.harness("default")
+    cases, dis = [], 0
+    for c in r.replays:
+        ref = is_number_literal_ref(c["text"])
+        if ref != (c["class"] != "none"):
+            dis += 1
+            if dis <= 5:
+                ctx.note("spec_reference_disagreement[numstrings]: %r spec=%s cpython_literal=%s" % (c["text"], c["class"], ref))
+            continue
+        cases.append(c)
+    ctx.extra["spec_reference_disagreements"] = ctx.extra.get("spec_reference_disagreements", 0) + dis
+    reqs = [{"op": "parse", "src": c["text"], "mode": "Expression"} for c in cases]
+    n_none = 0
+    for c, req, resp in zip(cases, reqs, h.run(reqs)):
+        ctx.replayed += 1
+        t = c["text"]
+        lit = False
+        if "ok" in resp:
+            b = resp["ok"]["body"]
+            v = b.get("value") if b.get("_t") == "ExprConstant" else None
+            isnum = isinstance(v, dict) and (v.get("_k") in ("Int", "Float") or v.get("_t") == "Complex" or v.get("_k") == "Complex")
+            lit = bool(isnum and b.get("range") == [0, len(t.encode("utf-8"))])
+        if c["class"] == "none":
+            n_none += 1
+            if lit:
+                ctx.mismatch("numlit.nonliteral_accepted@%s" % shape_of(t), {"src": t, "observed": str(resp)[:160]}, {"fam": "numstr", "src": t, "class": "none"})
+        elif not lit:
+            ctx.mismatch("numlit.literal_not_recognised@%s" % shape_of(t), {"src": t, "observed": str(resp)[:160]}, {"fam": "numstr", "src": t, "class": c["class"]})
+    ctx.extra.setdefault("number_cases", {})["all_strings"] = len(cases)
+    ctx.extra["number_strings_not_literals"] = n_none
+
+
 def pools(ctx):
     rng = random.Random(ctx.seed)
     n = 1500 if ctx.quick else 60000
@@ -330,6 +381,7 @@ def run(ctx):
         check_string(ctx, c, req["src"], resp)
     ctx.extra["string_cases"]["value_sweeps"] = len(reqs)
     run_numbers(ctx)
+    run_number_strings(ctx)
     pools(ctx)
 
 
@@ -339,7 +391,15 @@ def replay(ctx, rec):
     h = ctx.harness("default")
     resp = h.run([{"op": "parse", "src": c["src"], "mode": "Expression"}])[0]
     ctx.replayed += 1
-    if c["fam"] == "str":
+    if c["fam"] == "numstr":
+        lit = False
+        if "ok" in resp:
+            b = resp["ok"]["body"]
+            v = b.get("value") if b.get("_t") == "ExprConstant" else None
+            lit = isinstance(v, dict) and (v.get("_k") in ("Int", "Float") or v.get("_t") == "Complex") and b.get("range") == [0, len(c["src"].encode("utf-8"))]
+        if lit != (c["class"] != "none"):
+            ctx.mismatch("numlit.%s@replay" % ("nonliteral_accepted" if lit else "literal_not_recognised"), {"src": c["src"]}, c)
+    elif c["fam"] == "str":
         check_string(ctx, c["case"], c["src"], resp)
     else:
         ref = num_ref(c["src"])
